@@ -15,7 +15,7 @@ from ..domain import classify_exception, innermost_aquacrop_frame
 
 ID = "C12"
 LEVEL = "exploration"
-N = {"quick": 128, "thorough": 6000}
+N = {"quick": 160, "thorough": 6000}
 BUDGET_S = {"quick": 150, "thorough": 1500}
 RULE = ("seeded swarm biased to curve-number / germination / top-soil depths off compartment boundaries, profiles deepened for "
         "deep-rooted crops, thermal-time crops, controller writes, all partitions; value snapshots of the 17 profile arrays, the soil "
